@@ -28,15 +28,15 @@ TRUSTED = [
 ASSUMPTIONS = [
     "quantifier-free formulas (both converters raise NotImplementedError on a quantifier; the model returns None)",
     "theorems are conditional on the conversion returning (model result Some _); cnf_total shows it does for every formula whose connectives have Boolean-structure/atom children",
-    "cnf_sound holds only when the top-level clean-up empties no clause (cnf_sound_partial; exact criterion cnf_emptied); refuted otherwise: cnf(And(a, FALSE)) = a",
-    "Ackermannization: only the refutation of the shape clause (ack_shape_refuted: f(f(x)+1) = x keeps f(x)) is a theorem; shape on flat inputs, completeness and soundness are checked by correspondence with models/Ackermann.v and by the refeval search oracle (test level, not proof)",
+    "cnf_sound / pol_sound are full theorems for the repaired clean-up (pysmt 7e10806: FALSE_CNF when a clause is emptied); the former witnesses And(a, FALSE), And(FALSE, FALSE), Or(FALSE, FALSE) are directed regression cases (Coq: regression_emptied; harness: first batch)",
+    "Ackermannization: models/Ackermann.v is the code repaired by build/fixes/C11_ackermann_nested.diff; ack_shape (no application left, every formula) is a theorem; completeness and soundness are checked by correspondence and by the refeval search oracle (test level, not proof)",
     "FNode.simplify()/get_type() use the GLOBAL environment, so the check makes the fresh Environment of each batch the global one",
 ]
 RULE = ("cases: harness/gen/formulas.py restricted to quantifier-free (theory atoms of every theory, Boolean structure nested in atoms, sharing) "
         "+ a propositional generator with Boolean constants at every position, ITE, IFF, 0/1-ary And/Or and user symbols named FV<n>; "
         "a fresh pysmt Environment per batch; distinct = distinct (converter, formula structure)")
 
-KNOWN_EMPTIED = "cnf-cleanup:emptied-clause-dropped"
+KNOWN_EMPTIED = "cnf-cleanup:emptied-clause-dropped"     # fixed in 7e10806: a hit is a regression and is reported
 KNOWN_ACK_NESTED = "ackermann:application-nested-in-non-application-argument"
 
 
@@ -602,7 +602,7 @@ def ack_part(chk, rnd, tier):
             after = m._fresh_guess
             cases.append(([f, out], (lambda nm, f=f, out=out, before=before, after=after:
                                      "(%s, %d%%nat, [%s], %s, %d%%nat)" % (nm[f], before[0], "; ".join(tocoq.cstr(n) for n in before[1]), nm[out], after))))
-            meta.append(f.serialize()[:400])
+            meta.append((f.serialize()[:400], nested_class(f)))
             chk.count(("ack", tocoq.skey(f)), nontrivial=bool(acker.get_term_to_const_dict()))
             if nested_class(f):
                 stats["nested_inputs"] += 1
@@ -611,11 +611,17 @@ def ack_part(chk, rnd, tier):
             chk.sample({"kind": "ackermannization", "formula": fs[-1].serialize()[:300]})
     files = termcases.write(chk.dir, "ack", "From PySMT.models Require Import Oracles Cnf Ackermann.", ACK_T, ACK_OK.replace("ACK_T", ACK_T), cases, shard=40)
     bad, errs = termcases.run(files)
+    # models/Ackermann.v is the REPAIRED code (build/fixes/C11_ackermann_nested.diff): while the
+    # repository is unrepaired, disagreements on the known finding's input class belong to it
+    if KNOWN_ACK_NESTED in chk.known_hits:
+        attributed = [i for i in bad if meta[i][1]]
+        bad = [i for i in bad if not meta[i][1]]
+        chk.cov.setdefault("correspondence", {})["ack_disagreements_attributed_to_known_finding"] = len(attributed)
     chk.cov.setdefault("correspondence", {}).update({"ack_cases": len(cases), "ack_disagreements": len(bad) + len(errs)})
     chk.cov["search_ack"] = stats
     for i in bad[:4]:
-        chk.note("Ackermann model/implementation disagreement on %s" % meta[i])
-        chk.cov["correspondence"].setdefault("ack_examples", []).append(meta[i])
+        chk.note("Ackermann model/implementation disagreement on %s" % meta[i][0])
+        chk.cov["correspondence"].setdefault("ack_examples", []).append(meta[i][0])
     for e in errs[:2]:
         chk.note("Ackermann case file error: %s" % e["error"][-400:])
     return not bad and not errs
